@@ -34,6 +34,20 @@ theorem C08_exclusive_after_verdict (hc : Consistent X) (hp : Protocol X Generat
       (h' = 0 ∨ ∃ j, rf = some j ∧ h' ∈ kids (X.ops.take (j+1))) → X.hb (.oth a) (.oth l) :=
   exclusive_after_verdict obl_gate_make_mut hc hp hrw hvb hl ho hone
 
+/-- **C08 (schedules), in-place branch, both directions: "visible through that handle and through
+nothing else" under every schedule.**  The write `w` that `make_mut` grants in place is concurrent
+with no access through any other handle: handles that existed when the gate read the count are
+former sharers (their accesses happen-before `w`), handles created later descend from the writer's
+own handle after its `&mut` borrow ended and their accesses happen-after `w`. -/
+theorem C08_in_place_write_races_with_nothing (hc : Consistent X) (hp : Protocol X Generated.decOrd fenceOrd)
+    (hrw : CoRW X) (hvb : ViaBorn X) {l w : X.A} {h : H} {o : MemOrd} {rf : Option Nat}
+    (hl : X.kind l = .load h o rf)
+    (ho : ∀ g ∈ Generated.gates, g.name = "Arc::make_mut" → o ∈ g.loads)
+    (hone : valRead X.ops rf = 1) (hlw : X.hb (.oth l) (.oth w)) (hex : MutExcl X l w h) :
+    ∀ (a : X.A) (h' : H), (X.kind a).via = some h' → h' ≠ h →
+      X.hb (.oth a) (.oth w) ∨ X.hb (.oth w) (.oth a) :=
+  no_concurrent_access_after_verdict obl_gate_make_mut hc hp hrw hvb hl ho hone hlw hex
+
 open M1
 
 /-- **sole owner: the allocation is kept and the value is not cloned** (no event, no allocation) -/
